@@ -24,6 +24,7 @@ pub mod c19;
 pub mod c20;
 pub mod faultvar;
 pub mod sessmode;
+pub mod stdio;
 
 pub struct Report {
     pub mode: String,
@@ -124,6 +125,7 @@ pub fn run(args: &Args) -> J {
         "c08" => c08::run(args, &mut rep),
         "c13" => c13::run(args, &mut rep),
         "c14" => c14::run(args, &mut rep),
+        "stdio" => stdio::run(args, &mut rep),
         "c14fault" => faultvar::run_c14(args, &mut rep),
         "c12fault" => faultvar::run_c12(args, &mut rep),
         "c18" => c18::run(args, &mut rep),
